@@ -18,7 +18,7 @@ from .val import Err, dec, enc
 VERIF = os.path.dirname(os.path.dirname(os.path.abspath(__file__)))
 COQ = os.path.join(VERIF, "coq")
 BUILD = os.path.join(VERIF, "build")
-REPO = "/repo"
+REPO = os.environ.get("VERIF_REPO", "/repo")  # the tree under test (a scratch worktree when a seeded change is tried out)
 NPROC = str(min(16, os.cpu_count() or 4))
 
 ALLOWED_AXIOMS: t.Set[str] = set()  # every property theorem is expected to be closed
